@@ -104,7 +104,7 @@ func config(tier string) *opspace.Config {
 			}
 			return w
 		},
-		Alphabet: func(_ *hx.World, _ []*rspb.Release, _ int) []opspace.Step {
+		Alphabet: func(_ *hx.World, _ []*rspb.Release, _ []opspace.Step) []opspace.Step {
 			var out []opspace.Step
 			for _, o := range ops {
 				out = append(out, opspace.Step{Op: o})
